@@ -432,6 +432,15 @@ def _check_files(repo, r4, ci):
             if isinstance(c, ast.Call) and dotted(c.func) == "pickle.dump" and c.args and isinstance(c.args[0], ast.Tuple) and [unparse(e) for e in c.args[0].elts] == [
                     "self.__item_size", "self.__array_len", "self.__item_num_in_one_file"]:
                 dumped = True
+            # ... or the tuple object itself from which the three slots are then filled, in this order
+            if isinstance(c, ast.Call) and dotted(c.func) == "pickle.dump" and c.args and isinstance(c.args[0], ast.Name):
+                nm = c.args[0].id
+                built = [st for st in ast.walk(init.node) if isinstance(st, ast.Assign) and len(st.targets) == 1 and isinstance(st.targets[0], ast.Name) and st.targets[0].id == nm]
+                unpacked = any(isinstance(st, ast.Assign) and len(st.targets) == 1 and isinstance(st.targets[0], ast.Tuple) and isinstance(st.value, ast.Name) and st.value.id == nm and
+                               [unparse(e) for e in st.targets[0].elts] == ["self.__item_size", "self.__array_len", "self.__item_num_in_one_file"] for st in ast.walk(init.node))
+                if unpacked and built and all(isinstance(st.value, ast.Tuple) and len(st.value.elts) == 3 or (isinstance(st.value, ast.Call) and dotted(st.value.func) == "pickle.load")
+                                              for st in built):
+                    dumped = True
     r4.require(dumped, init, "meta written at creation", "create mode no longer writes (item_size, array_len, items_per_file)")
     fnum = [st for st in ast.walk(init.node) if isinstance(st, (ast.Assign, ast.AnnAssign)) and unparse(st.targets[0] if isinstance(st, ast.Assign) else st.target) == "self.__file_num"]
     okn = False
